@@ -7,7 +7,7 @@ import MirModel.HitMetric
   `Float` here (driver) and at `ℝ` in `MirProofs/Lemmas/Beat.lean` (theorems).
 
   Python partiality is explicit (`Py`): `validate` (`ValueError`), `incorrect_beats[0]` on an empty index
-  array in `goto` (`IndexError`), `int(nan)` in `p_score` (`ValueError`), out-of-range indexing in
+  array in `goto` (`IndexError`), out-of-range indexing in
   `_get_entropy` (`IndexError`).  NumPy float division by zero does not raise: it is `none` (= nan / inf)
   where the code can reach it.
 -/
@@ -310,32 +310,35 @@ def pairCount (rs es : List Int) (shift : Int) (lo hi : Nat) : Nat :=
     decide ((lo : Int) ≤ i - j + shift) && decide (i - j + shift < (hi : Int))).length
 
 /-- everything `p_score` computes before the final division: the window size, the train length, and the
-    windowed correlation sum -/
-def pScoreParts (r : Rat) (rs : List Rat) (e : Rat) (es : List Rat) (thr : Rat) : Py (Int × Nat × Nat) :=
+    windowed correlation sum.  `none`: all reference beats fall into one 10 ms sample, so there is no
+    inter-annotation interval (`annotation_intervals.size == 0`) and the code returns 0. -/
+def pScoreParts (r : Rat) (rs : List Rat) (e : Rat) (es : List Rat) (thr : Rat) : Option (Int × Nat × Nat) :=
   let offset := min (minList e es) (minList r rs)
   let endPoint : Int := (max (maxList e es - offset) (maxList r rs - offset)).ceil
   let N : Nat := (endPoint * 100 + 1).toNat
   let rIdx := trainSupport (r :: rs) offset
   let eIdx := trainSupport (e :: es) offset
   match medianInt (diffs rIdx) with
-  | none => .error .valueError                      -- int(np.round(nan))
+  | none => none
   | some med =>
       let win := roundHalfEven (thr * med)
       let L : Nat := 2 * N - 1
       let middle : Int := ((L / 2 : Nat) : Int)
       let b := pySliceBounds L (middle - win) (middle + win + 1)
-      .ok (win, N, pairCount rIdx eIdx ((N : Int) - 1) b.1 b.2)
+      some (win, N, pairCount rIdx eIdx ((N : Int) - 1) b.1 b.2)
 
-def pScoreCore (ref est : List Rat) (thr : Rat) : Py Rat :=
+/-- `p_score` after validation: total (it never raises on validated input) -/
+def pScoreCore (ref est : List Rat) (thr : Rat) : Rat :=
   match ref, est with
-  | r :: r' :: rs, e :: e' :: es => do
-      let p ← pScoreParts r (r' :: rs) e (e' :: es) thr
-      pure ((p.2.2 : Rat) / ((max (es.length + 2) (rs.length + 2) : Nat) : Rat))
-  | _, _ => .ok 0
+  | r :: r' :: rs, e :: e' :: es =>
+      match pScoreParts r (r' :: rs) e (e' :: es) thr with
+      | none => 0
+      | some p => (p.2.2 : Rat) / ((max (es.length + 2) (rs.length + 2) : Nat) : Rat)
+  | _, _ => 0
 
 def pScore (ref est : List Rat) (thr : Rat := 1 / 5) : Py Rat := do
   validate ref est
-  pScoreCore ref est thr
+  pure (pScoreCore ref est thr)
 
 /-! ### Continuity -/
 
@@ -512,6 +515,7 @@ inductive Score (α : Type) where
 
 /-- `beat.evaluate`: the ordered score dictionary and the tie flag of the run -/
 def evaluate {α : Type} (T : TOps α) (ref0 est0 : List Rat) (p : Params) : Py (List (String × Score α) × Bool) := do
+  validate ref0 est0                      -- the untrimmed arrays are validated first
   let ref := trimBeats ref0 p.minBeatTime
   let est := trimBeats est0 p.minBeatTime
   let f ← fMeasure ref est p.fThr
